@@ -126,7 +126,20 @@ func genC16(t *rapid.T) interface{} {
 	c := &C16Case{Doc: []byte(doc), Subset: true}
 	if rapid.IntRange(0, 3).Draw(t, "mut") == 0 && len(doc) > 0 {
 		c.Subset = false
-		switch rapid.IntRange(0, 4).Draw(t, "mk") {
+		switch rapid.IntRange(0, 5).Draw(t, "mk") {
+		case 5:
+			// a raw control character right behind a quote: inside a string (no JSON, and no string of
+			// the grammar when it is a line break) or behind one (no whitespace)
+			idx := []int{}
+			for i := range doc {
+				if doc[i] == '"' {
+					idx = append(idx, i)
+				}
+			}
+			if len(idx) > 0 {
+				i := idx[rapid.IntRange(0, len(idx)-1).Draw(t, "quote")] + 1
+				c.Doc = []byte(doc[:i] + rapid.SampledFrom([]string{"\r", "\r", "\n", "\x00", "\x1f", "\t", "\f"}).Draw(t, "rawctl") + doc[i:])
+			}
 		case 0:
 			c.Doc = []byte(doc[:rapid.IntRange(0, len(doc)-1).Draw(t, "cut")])
 		case 1:
